@@ -2,6 +2,8 @@
 
 mod freezer;
 mod freezer_files;
+#[cfg(kani)]
+pub mod verif_fs;
 #[cfg(test)]
 mod tests;
 
